@@ -499,3 +499,188 @@ def install(mon, names):
         if n == "started":
             continue
         INSTALLERS[n](mon)
+
+
+# --------------------------------------------------------------------------
+# Monitor "ins": every stored INS sample carries the exact meta-proposal
+# density and weight (C03); also records training-set sizes (C17) and the
+# per-iteration criteria (C15).
+def _logit_ref(x, eps):
+    """Independent logit + log-Jacobian (sum over dimensions)."""
+    if eps:
+        x = np.clip(x, eps, 1 - eps)
+    with np.errstate(divide="ignore", invalid="ignore"):
+        lx = np.log(x)
+        l1 = np.log1p(-x)
+    return lx - l1, (-lx - l1).sum(axis=1)
+
+
+def check_ins_store(mon, sampler, store, name, where):
+    from scipy.special import logsumexp
+    from nessai import config as ncfg
+
+    V = mon.violation
+    model = mon.model
+    s = store.samples
+    log_q = store.log_q
+    if s is None:
+        return
+    N = s.size
+    mon.count("ins.store_checks")
+    mon.count("ins.rows_checked", int(N))
+    key = f"{name}@{where}"
+    if log_q is None or log_q.shape[0] != N:
+        V(f"log_q-rows!=samples:{key}",
+          f"log_q {None if log_q is None else log_q.shape} samples {N}")
+        return
+    prop = sampler.proposal
+    weights = dict(prop.weights)
+    n_prop = len(weights)
+    if log_q.shape[1] != n_prop:
+        V(f"log_q-columns!=proposals:{key}", f"{log_q.shape} vs {n_prop}")
+        return
+    x = np.array(model.unstructured_view(s), dtype=float)
+    if np.any(x < 0) or np.any(x > 1) or np.isnan(x).any():
+        V(f"sample-outside-unit-hypercube:{key}", "")
+    # likelihood faithful to the model
+    phys = model.from_unit_hypercube(s)
+    with model.quiet():
+        ll_ref = np.asarray(model._log_l(phys), dtype=float)
+    ulps = 0 if getattr(model, "exact", True) else 4
+    stored = s["logL"].astype(float)
+    if ulps:
+        with np.errstate(invalid="ignore"):
+            bad = ~((stored == ll_ref) | (
+                np.abs(stored - ll_ref) <= ulps * np.spacing(np.abs(ll_ref))))
+    else:
+        bad = ~(stored == ll_ref)
+    if bad.any():
+        i = int(np.argmax(bad))
+        V(f"stored-logL!=model:{key}",
+          f"{int(bad.sum())} rows, first {i}: {stored[i]!r} vs {ll_ref[i]!r}")
+    # proposal weights = fraction of samples drawn from each proposal
+    its = s["it"].astype(int)
+    counts = np.bincount(its + 1, minlength=n_prop)
+    if counts.size != n_prop:
+        V(f"sample-from-unknown-proposal:{key}", f"it max {its.max()}")
+        return
+    w = np.array([weights[k] for k in sorted(weights)], dtype=float)
+    if sorted(weights) != list(range(-1, n_prop - 1)):
+        V(f"proposal-weight-keys:{key}", f"{sorted(weights)}")
+        return
+    if abs(w.sum() - 1.0) > 1e-12:
+        V(f"proposal-weights-sum!=1:{key}", f"sum={w.sum()!r}")
+    if np.abs(w - counts / N).max() > 1e-12:
+        V(f"proposal-weights!=sample-fractions:{key}",
+          f"weights {w.tolist()} fractions {(counts / N).tolist()}")
+    # per-proposal densities re-evaluated from the saved flows
+    if np.any(log_q[:, 0] != 0.0):
+        V(f"log_q[prior-column]!=0:{key}", "")
+    rep = prop.reparameterisation
+    if rep == "logit":
+        xp, log_j = _logit_ref(x, ncfg.general.eps)
+    else:
+        xp, log_j = x.copy(), np.zeros(N)
+    flows = prop.flow
+    if flows.n_models != n_prop - 1:
+        V(f"n-flows!=n-proposals-1:{key}", f"{flows.n_models} vs {n_prop}")
+        return
+    on_edge = np.any((x == 0.0) | (x == 1.0), axis=1)
+    for j in range(flows.n_models):
+        with np.errstate(all="ignore"):
+            ref = flows.log_prob_ith(xp, j) + log_j
+        got = log_q[:, j + 1]
+        both_ninf = np.isneginf(ref) & np.isneginf(got)
+        tol = 1e-3 + 1e-5 * np.abs(ref)
+        with np.errstate(invalid="ignore"):
+            ok = both_ninf | (np.abs(got - ref) <= tol)
+        # a sample exactly on the clamp boundary of the logit is singular
+        ok |= ~np.isfinite(log_j)
+        if not ok.all():
+            i = int(np.argmax(~ok))
+            kind = ""
+            if getattr(prop, "clip", False) and np.all(on_edge[~ok]):
+                # every disagreeing row is a sample that was clipped onto
+                # the boundary of the unit hypercube
+                kind = ":clipped-sample"
+            V(f"log_q!=flow-density{kind}:{key}",
+              f"flow {j}: {int((~ok).sum())} rows, first {i}: stored "
+              f"{got[i]!r} recomputed {ref[i]!r} (it={its[i]})")
+            break
+    # meta proposal and weight.  After a resume without a saved density table
+    # the table is re-derived from the float32 flows: float32 accuracy there.
+    tol_q = 1e-10 if where != "resume" else None
+    with np.errstate(all="ignore"):
+        logQ = logsumexp(log_q, b=w, axis=1)
+    dq = np.abs(s["logQ"] - logQ)
+    lim = tol_q if tol_q is not None else 1e-4 + 1e-5 * np.abs(logQ)
+    with np.errstate(invalid="ignore"):
+        badq = ~((s["logQ"] == logQ) | (dq <= lim))
+    if badq.any() or np.any(np.isnan(s["logQ"])):
+        i = int(np.argmax(badq))
+        V(f"logQ!=mixture-of-log_q:{key}",
+          f"row {i}: stored {s['logQ'][i]!r} recomputed {logQ[i]!r} "
+          f"(it={its[i]})")
+    lu = s["logU"]
+    lu_ref = np.where(np.any((x < 0) | (x >= 1), axis=1), -np.inf, 0.0)
+    if np.any(lu != lu_ref):
+        V(f"logU!=unit-hypercube-prior:{key}", "")
+    with np.errstate(invalid="ignore"):
+        w_ref = lu - s["logQ"]
+        badw = ~((s["logW"] == w_ref) | (np.abs(s["logW"] - w_ref) <= 1e-10))
+    if badw.any() or np.any(np.isnan(s["logW"])):
+        V(f"logW!=logU-logQ:{key}", "")
+    if n_prop >= 3:
+        mon.classes.add("ins:>=2-flows-checked")
+
+
+def install_ins(mon):
+    from nessai.samplers.importancesampler import ImportanceNestedSampler
+    from nessai.proposal.importance import ImportanceFlowProposal
+
+    def check_all(self, where):
+        check_ins_store(mon, self, self.training_samples, "training", where)
+        if self.iid_samples is not None:
+            check_ins_store(mon, self, self.iid_samples, "iid", where)
+
+    def after_update(self, _t, _r):
+        mon.count("ins.iterations")
+        check_all(self, "iteration")
+
+    wrap(ImportanceNestedSampler, "update_evidence", None, after_update)
+
+    def after_finalise(self, _t, _r):
+        check_all(self, "finalise")
+
+    wrap(ImportanceNestedSampler, "finalise", None, after_finalise)
+
+    st = {"checked_resume": False}
+
+    def before_loop(self):
+        if getattr(self, "resumed", False) and not st["checked_resume"]:
+            st["checked_resume"] = True
+            mon.count("ins.resumes")
+            mon.classes.add("resumed")
+            if self.iteration > 0 and self.training_samples.samples is not \
+                    None:
+                check_all(self, "resume")
+
+    wrap(ImportanceNestedSampler, "nested_sampling_loop", before_loop, None)
+
+    # C17: size of every training set
+    sizes = mon.data.setdefault("training_sizes", [])
+
+    def before_train(self, samples, *a, **k):
+        sizes.append(int(len(samples)))
+
+    wrap(ImportanceFlowProposal, "train", before_train, None)
+
+    def after_construct(fs):
+        ns = fs.ns
+        mon.data["min_samples"] = int(getattr(ns, "min_samples", -1))
+        mon.data["nlive"] = int(ns.nlive)
+
+    mon.after_construct_hooks.append(after_construct)
+
+
+INSTALLERS["ins"] = install_ins
